@@ -23,6 +23,11 @@ import (
 
 var vHistAlphabet = []string{"use(T1)", "use(T2)", "use(expired-at-mint)", "use(none)", "wait(T1)", "wait(T2)"}
 
+// Transport order inside one use: websocket first, so that the LAST request before a wait and a
+// later request after it travel on the same keep-alive HTTP connection of the history's client
+// (a cache that remembers only the last verified (connection, token) pair is then still hit).
+var vHistTransports = []string{"ws", "http", "http-query", "http-batch"}
+
 const (
 	vHistTTL1   = 1000 * time.Millisecond
 	vHistTTL2   = 2000 * time.Millisecond
@@ -158,7 +163,7 @@ func vRunHistory(cfg vSrvCfg, events []string) (res vHistResult, err error) {
 			}
 			continue
 		}
-		for _, tr := range vTransports {
+		for _, tr := range vHistTransports {
 			var c vCred
 			var exp time.Time
 			if arg == "none" {
@@ -290,8 +295,10 @@ func vRunHistories(cfg vSrvCfg, maxLen, workers int, deadline time.Time, onViola
 	next := 0
 	for w := 0; w < workers; w++ {
 		wg.Add(1)
-		go func() {
+		go func(w int) {
 			defer wg.Done()
+			// stagger the workers so that their first uses do not all compete for the CPU at once
+			time.Sleep(time.Duration(w) * 4 * time.Millisecond)
 			for {
 				mu.Lock()
 				if next >= len(hs) {
@@ -367,7 +374,7 @@ func vRunHistories(cfg vSrvCfg, maxLen, workers int, deadline time.Time, onViola
 					}
 				}
 			}
-		}()
+		}(w)
 	}
 	wg.Wait()
 	st.Wall = time.Since(start).Seconds()
